@@ -335,6 +335,20 @@ def run(facts, rep, tier, ctx):
         for o in scratch.obligations:
             if o["rule"] == "M":
                 rep.ob(("A/" if w_.asyncw else "") + "R10.10", o["fn"], o["key"].split("|")[2], o["ok"], o["detail"], o["loc"])
+    # R10.12 ... also for a view rooted inside the overlay: an altroot answers what the filesystem behind it answers (no
+    # "the root always exists" of its own)
+    from . import c07 as _c07
+    from ..panics import Discharger as _D10, load_records as _lr10
+    import os as _os10
+    D10 = _D10(facts, _lr10(_os10.path.join(ctx["V"], "rules", "panic_records.json")))
+    for w_ in (ws, wa):
+        if w_.present():
+            scr12 = Report("d")
+            _c07.delegation(facts, scr12, w_, "D", D10)
+            for o in scr12.obligations:
+                d12 = o["key"].split("|")[2]
+                if d12.split(":")[0] in ("exists", "metadata", "read_dir", "open_file"):
+                    rep.ob(("A/" if w_.asyncw else "") + "R10.12", o["fn"], d12, o["ok"], o["detail"], o["loc"])
     # R10.11 a removed entry cannot be opened: open_file goes through the marker-aware resolver, whatever the write layer holds
     # (a stale writer can put bytes back under the marker)
     from . import c04 as _c04
